@@ -69,8 +69,15 @@ ITEMS = [
     Item(id='max_consuming', source=S, locator='impl NNum / fn max_consuming',
          ensures=[('is_an_argument', 'r == self || r == other'),
                   ('not_less_than_the_other_on_reals', '(num_partial_cmp_spec(self@, other@) is Some) ==> (num_partial_cmp_spec(r@, self@) != Some(Ordering::Less) && num_partial_cmp_spec(r@, other@) != Some(Ordering::Less))')], props=P8),
+    Item(id='NAN_HASH', kind='type', source=S, locator='const NAN_HASH'),
+    Item(id='hash_fraction', source=S, locator='fn hash_fraction',
+         ensures=[('numerator_then_denominator', 'final(state).hlog() == old(state).hlog() + frac_hash_words(r@)')], props=['C09']),
     Item(id='consistent_hash_f64', source=S, locator='fn consistent_hash_f64',
-         ensures=[('hash_of_float_depends_on_exact_value', 'final(state).hlog() == old(state).hlog() + real_hash_words(fv(f), f)')], props=['C09']),
+         ensures=[('hash_of_float_depends_on_exact_value', 'final(state).hlog() == old(state).hlog() + real_hash_words(fv(f))')], props=['C09']),
+    Item(id='consistent_hash_complex', source=S, locator='fn consistent_hash_complex',
+         ensures=[('zero_imaginary_part_does_not_contribute',
+                   'final(state).hlog() == old(state).hlog() + (if fv_eq(fv(im), FV::Fin(0real)) { real_hash_words(fv(re)) } else { real_hash_words(fv(re)) + real_hash_words(fv(im)) })')],
+         props=['C09']),
     Item(id='total_hash', source=S, locator='impl NNum / fn total_hash',
          ensures=[('equal_keys_hash_equally', 'final(state).hlog() == old(state).hlog() + num_hash_words(self@)')], props=['C09']),
 ]
